@@ -72,7 +72,7 @@ func tsLoad(c *chk.Ctx, root string) map[string]map[string]string {
 	return res
 }
 
-// (m: both Go plugins with the optional mock server requested - thorough tier)
+// (m: both Go plugins with the optional mock server requested)
 var subsets = map[string][]string{"h": {"go-http"}, "c": {"go-client"}, "b": {"go-http", "go-client"}, "m": {"go-http", "go-client"}}
 
 // checkC13 : everything the generators emit builds, vets and loads.
@@ -110,10 +110,7 @@ func checkC13(c *chk.Ctx) {
 		if (i+int(c.Seed))%stride != 0 && !shaped {
 			continue
 		}
-		sks := []string{"h", "c", "b"}
-		if c.Thorough() {
-			sks = append(sks, "m")
-		}
+		sks := []string{"h", "c", "b", "m"}
 		for _, sk := range sks {
 			prefix := fmt.Sprintf("b%d%s", i, sk)
 			e, err := pipe.ParseExported(json.RawMessage(raw), prefix)
